@@ -338,6 +338,8 @@ pub fn emit_case(rng: &mut Rng, bytes0: &[u8], out: &mut Vec<String>, native_fri
     } else {
         match rng.below(12) {
             0 => Place::Ro,
+            // a memory destination that may not be written is the interesting half of the permission cases
+            3 if ins.op0_kind() == OpKind::Memory => Place::Ro,
             1 => Place::Unmapped,
             2 => Place::Straddle,
             3 | 4 if ins.mnemonic() == Mnemonic::Xorps || ins.mnemonic() == Mnemonic::Movups => Place::Misaligned,
@@ -506,7 +508,7 @@ pub fn emit_case(rng: &mut Rng, bytes0: &[u8], out: &mut Vec<String>, native_fri
     // unsigned limits, equal / complementary / negated operands) - independent random values practically never do
     {
         use Mnemonic::*;
-        let two_op = matches!(ins.mnemonic(), Add | Adc | Sub | Sbb | Cmp | And | Or | Xor | Test | Imul | Cmove | Cmovne | Cmovae | Xchg)
+        let two_op = matches!(ins.mnemonic(), Add | Adc | Sub | Sbb | Cmp | And | Or | Xor | Test | Imul | Cmove | Cmovne | Cmovae | Xchg | Mov)
             && ins.op_count() >= 2;
         let mul1 = matches!(ins.mnemonic(), Mul | Imul) && ins.op_count() == 1;
         let addr_regs: Vec<usize> = [ins.memory_base(), ins.memory_index()]
@@ -527,7 +529,7 @@ pub fn emit_case(rng: &mut Rng, bytes0: &[u8], out: &mut Vec<String>, native_fri
             Some((p, sh, 8 * r.size() as u32))
         };
         let maskw = |w: u32| if w >= 64 { u64::MAX } else { (1u64 << w) - 1 };
-        if mem_patch.is_none() && (two_op || mul1) && rng.chance(2, 5) {
+        if mem_patch.is_none() && (two_op || mul1) && (rng.chance(2, 5) || (place == Place::Ro && ins.op0_kind() == OpKind::Memory)) {
             // operand 0 = destination (or the single explicit operand), operand "src" = the last explicit one
             let k_src = if mul1 { 0 } else { 1 };
             let dst_reg = if mul1 { reg_loc(Register::RAX).map(|(p, s, _)| (p, s, 8 * ins.op0_register().size().max(sz as usize) as u32)) } else if ins.op0_kind() == OpKind::Register { reg_loc(ins.op0_register()) } else { None };
@@ -551,14 +553,19 @@ pub fn emit_case(rng: &mut Rng, bytes0: &[u8], out: &mut Vec<String>, native_fri
                     let b = if sa != 0 { target / sa } else { 1 };
                     (b as u64) & m
                 } else {
-                    match rng.below(8) {
+                    // (the last three make the result equal to the old destination for one family each: a store that changes
+                    // nothing is still a store)
+                    let quiet = place == Place::Ro && ins.op0_kind() == OpKind::Memory && rng.chance(1, 2);
+                    match if quiet { 8 + rng.below(3) } else { rng.below(11) } {
                         0 => !d & m,
                         1 => d.wrapping_neg() & m,
-                        2 => d,
+                        2 | 8 => d,
                         3 => (!d).wrapping_sub(1) & m,
                         4 => d.wrapping_add(1) & m,
                         5 => d.wrapping_sub(1) & m,
                         6 => (m - d).wrapping_add(1) & m,
+                        9 => 0,
+                        10 => m,
                         _ => 1,
                     }
                 };
